@@ -98,8 +98,17 @@ class ExtMethod:
         self.returns_field = returns_field
         self.native = native
         self.sets = sets or {}
+        self.raises = raises or []
+        self.suspends = True
 
     def apply(self, I, self_obj, args, kwargs):
+        if self.is_async and not I.native:
+            from .asyncrule import ExtAwait
+
+            return ExtAwait(self, self_obj, list(args), dict(kwargs))
+        return self.apply_now(I, self_obj, args, kwargs)
+
+    def apply_now(self, I, self_obj, args, kwargs):
         I.ctx.assumptions_used.add(f"external:{self_obj.cls.__name__}.{self.name}")
         if self.fn is not None:
             return self.fn(I, self_obj, args, kwargs)
@@ -180,6 +189,11 @@ def call_pyfunc(I, f, args, kwargs, bound_self=None, have_self=False, cls=None):
     mod = f.__module__ or ""
     qn = f"{mod}.{f.__qualname__}"
     reg = I.registry
+    if reg is not None and not I.native:
+        ext0 = reg.external_for(qn)
+        if ext0 is not None:
+            I.ctx.assumptions_used.add(f"external:{qn}")
+            return ext0(I, ([bound_self] if have_self else []) + list(args), kwargs)
     if source.is_repo_module(mod) or source.is_contract_module(mod):
         # contract on a bellows function: the caller is checked against it (modular)
         if reg is not None and source.is_repo_module(mod):
